@@ -274,19 +274,19 @@ Qed.
 (* ------------------------------------------------------------------ introspection *)
 Theorem introspect_access_truth cfg s key tampered scopes p :
   introspect_access cfg s key tampered scopes = Some p <->
-  exists k r, key = Some k /\ access (st s) k = Some r /\
+  exists k r, key = Some k /\ lookup_access (st s) (Some k) = Some r /\
     expired (s_exp_at (r_sess r)) (r_at r) (cf_life_at cfg) (now s) = false /\ tampered = false /\
     match_scopes cfg (r_gscopes r) scopes = true /\
     p = {| pl_use := KAccess; pl_client := r_client r; pl_subject := s_subject (r_sess r);
            pl_scopes := r_gscopes r; pl_aud := map a_raw (r_gaud r); pl_exp := s_exp_at (r_sess r) |}.
 Proof.
   unfold introspect_access. split.
-  - destruct key as [k|]; cbn [find]; [|discriminate].
-    destruct (access (st s) k) as [r|] eqn:Ea; [|discriminate].
+  - destruct key as [k|]; [|discriminate].
+    destruct (lookup_access (st s) (Some k)) as [r|] eqn:Ea; [|discriminate].
     destruct (expired _ _ _ _) eqn:E1; [discriminate|]. destruct tampered; [discriminate|].
     destruct (match_scopes cfg (r_gscopes r) scopes) eqn:E2; cbn [negb]; [|discriminate].
     intros [= <-]. exists k, r. repeat split; try reflexivity; assumption.
-  - intros [k [r [-> [Ha [E1 [-> [E2 ->]]]]]]]. cbn [find]. rewrite Ha, E1, E2. reflexivity.
+  - intros [k [r [-> [Ha [E1 [-> [E2 ->]]]]]]]. rewrite Ha, E1, E2. reflexivity.
 Qed.
 
 Theorem introspect_refresh_truth cfg s key tampered scopes p :
@@ -317,7 +317,10 @@ Proof.
     try (destruct h, h'; reflexivity).
   exfalso. apply introspect_access_truth in Ea as [k [r [Hk [Ha _]]]].
   apply introspect_refresh_truth in Er as [k' [r' [Hk' [Hr _]]]].
-  rewrite Hk in Hk'. injection Hk' as <-. pose proof (inv_access_not_refresh s k r I Ha). congruence.
+  rewrite Hk in Hk'. injection Hk' as <-. unfold lookup_access in Ha.
+  destruct (access (st s) k) as [ra|] eqn:Eacc.
+  - pose proof (inv_access_not_refresh s k ra I Eacc). congruence.
+  - pose proof (inv_owner_implicit s I _ _ Ha) as H1. pose proof (inv_owner_refresh s I _ _ _ Hr) as H2. congruence.
 Qed.
 
 (* the endpoint answers only authenticated callers *)
@@ -348,10 +351,10 @@ Qed.
 (* ------------------------------------------------------------------ glue for the property statements *)
 (* the authorization endpoint's PKCE gate *)
 Theorem authorize_pkce_gate cfg s a :
-  o_err (snd (authorize cfg s a)) = "" ->
+  az_rtype a = RCode -> o_err (snd (authorize cfg s a)) = "" ->
   exists cl, clients s (az_client a) = Some cl /\ pkce_validate cfg (az_challenge a) (az_method a) cl = None.
 Proof.
-  unfold authorize. destruct (cf_par_enforced cfg); [discriminate|].
+  intros Hrt. unfold authorize. rewrite Hrt. destruct (cf_par_enforced cfg); [discriminate|].
   destruct (clients s (az_client a)) as [cl|]; [|discriminate]. unfold authorize_core.
   destruct (negb (scopes_ok cfg cl (az_scopes a))); [discriminate|].
   destruct (negb (aud_ok cfg (cl_aud cl) (az_aud a))); [discriminate|].
@@ -364,10 +367,10 @@ Qed.
 
 (* the authorization endpoint confines the request to the client's registration *)
 Theorem authorize_confined cfg s a :
-  o_err (snd (authorize cfg s a)) = "" ->
+  az_rtype a = RCode -> o_err (snd (authorize cfg s a)) = "" ->
   exists cl, clients s (az_client a) = Some cl /\ scopes_ok cfg cl (az_scopes a) = true /\ aud_ok cfg (cl_aud cl) (az_aud a) = true.
 Proof.
-  unfold authorize. destruct (cf_par_enforced cfg); [discriminate|].
+  intros Hrt. unfold authorize. rewrite Hrt. destruct (cf_par_enforced cfg); [discriminate|].
   destruct (clients s (az_client a)) as [cl|]; [|discriminate]. unfold authorize_core.
   destruct (negb (scopes_ok cfg cl (az_scopes a))) eqn:E1; [discriminate|].
   destruct (negb (aud_ok cfg (cl_aud cl) (az_aud a))) eqn:E2; [discriminate|].
@@ -376,7 +379,7 @@ Qed.
 
 (* the PKCE record written at authorization carries the request's challenge and method and the client *)
 Theorem authorize_stores_challenge cfg s a :
-  o_err (snd (authorize cfg s a)) = "" ->
+  az_rtype a = RCode -> o_err (snd (authorize cfg s a)) = "" ->
   exists cl, clients s (az_client a) = Some cl /\
   let s' := fst (authorize cfg s a) in
   exists k, nth_error (log s') (List.length (log s)) = Some {| i_kind := KCode; i_key := k; i_rid := next_rid s; i_endpoint_token := false |} /\
@@ -384,7 +387,7 @@ Theorem authorize_stores_challenge cfg s a :
     (~ (az_challenge a = "" /\ az_method a = "") ->
        exists pr, pkce (st s') k = Some pr /\ r_challenge pr = az_challenge a /\ r_method pr = az_method a /\ r_cl pr = cl).
 Proof.
-  unfold authorize. destruct (cf_par_enforced cfg); [discriminate|].
+  intros Hrt. unfold authorize. rewrite Hrt. destruct (cf_par_enforced cfg); [discriminate|].
   destruct (clients s (az_client a)) as [cl|]; [|discriminate]. unfold authorize_core.
   destruct (negb (scopes_ok cfg cl (az_scopes a))); [discriminate|].
   destruct (negb (aud_ok cfg (cl_aud cl) (az_aud a))); [discriminate|].
@@ -448,16 +451,20 @@ Qed.
 
 (* once a credential's key holds no access record and no active refresh record, it is never reported active again *)
 Theorem inactive_forever cfg s h i e tampered scopes :
-  Inv s -> nth_error (log s) i = Some e -> access (st s) (i_key e) = None -> rt_dead (st s) (i_key e) ->
+  Inv s -> nth_error (log s) i = Some e -> i_kind e <> KImplicit -> access (st s) (i_key e) = None -> rt_dead (st s) (i_key e) ->
   introspect_access cfg (run cfg s h) (Some (i_key e)) tampered scopes = None /\
   introspect_refresh cfg (run cfg s h) (Some (i_key e)) tampered scopes = None.
 Proof.
-  intros I Hn Ha Hr.
+  intros I Hn Hkind Ha Hr.
   assert (Hlt : i_key e < next_key s).
   { exact (proj1 (inv_owner_fresh s I _ _ _ (inv_log_owner s I e (nth_error_In _ _ Hn)))). }
   pose proof (decay_run cfg h s) as D.
   pose proof (decay_access_gone _ _ _ _ D Hlt Ha) as Ha'.
   pose proof (decay_rt_dead _ _ _ _ D Hlt Hr) as Hr'.
-  unfold introspect_access, introspect_refresh. cbn [find]. rewrite Ha'.
+  assert (Hi' : implicit (st (run cfg s h)) (i_key e) = None).
+  { destruct (implicit (st (run cfg s h)) (i_key e)) as [ri|] eqn:Ei; [|reflexivity]. exfalso.
+    pose proof (Inv_run cfg h s I) as I2. pose proof (inv_owner_implicit _ I2 _ _ Ei) as Ho1.
+    pose proof (inv_log_owner _ I2 e (nth_error_In _ _ (log_run_nth cfg h s i e Hn))) as Ho2. rewrite Ho1 in Ho2. congruence. }
+  unfold introspect_access, introspect_refresh, lookup_access. cbn [find]. rewrite Ha', Hi'.
   destruct Hr' as [->|[r ->]]; auto.
 Qed.
